@@ -149,7 +149,14 @@ func history(h *vh.H, ci int, r vh.R, full bool) {
 		}
 	}
 	reindex()
-	w.tau = types.TimeSlot(E*(1+r.IntN(3)) + r.IntN(E))
+	// every fourth history lives high up in the 32-bit slot range (an epoch-aligned offset near 2^16, 2^31 or just below 2^32): slot
+	// arithmetic narrowed to 16 or 31 bits, or signed, goes wrong only there
+	hiBase := 0
+	if r.IntN(4) == 0 {
+		hiBase = []int{(1 << 16) / E, (1<<16)/E - 1, (1 << 31) / E, (1<<31)/E - 1, (1<<32)/E - 60}[r.IntN(5)] * E
+		h.Inc("histories_high_in_the_slot_range")
+	}
+	w.tau = types.TimeSlot(hiBase + E*(1+r.IntN(3)) + r.IntN(E))
 	good, wonky := 2*V/3+1, V/3
 	blocks := 2 + r.IntN(7)
 	if full {
